@@ -114,7 +114,7 @@ def chain(ks, ra, rb, fold_numbers=True):
     return 0
 
 
-def oracle(ks, inp, out, fold_numbers=True):
+def oracle(ks, inp, out, fold_numbers=True, verb=True):
     """the property on (input, output); returns (law, detail) or None"""
     names = [k for k, _ in ks]
     keyed = [r for r in inp if all(n in dict(r) for n in names)]
@@ -129,6 +129,8 @@ def oracle(ks, inp, out, fold_numbers=True):
         for j in range(i + 1, len(o)):
             if chain(ks, ds[j], ds[i], fold_numbers) < 0:
                 return ("ordered by the keys in precedence order", [c11.show([o[i]])[0], c11.show([o[j]])[0]])
+    if not verb:
+        return None         # arrays / maps: equal-comparing elements may come out in any order
     # identical key texts keep input order
     pos = {}
     for r in keyed:
@@ -259,6 +261,106 @@ def gen_dsl_case(rng):
     return [(b"v", code)], ["put", "-q", prog], recs
 
 
+MAPKEYS_STR = [b"a", b"B", b"abc", b"Abc", b"ABD", b"b", b"pan", b"Pan", b"wye", b"zee", b"x,y", b"a1", b"a2", b"a10", b"file9", b"file10"]
+MAPKEYS_NUM = [b"1", b"10", b"9", b"2.5", b"-4", b"0", b"100", b"1.0", b"7.25", b"-0.5", b"33"]
+
+
+def gen_map_case(rng):
+    """sort(map, flags | function) through one record: '$* = sort($*, ...)'.  The case handed to the checker has one
+    record (k: key, v: value) per map entry, in input resp. output order."""
+    n = rng.choice([1, 2, 5, 9, 14])
+    by_value = rng.random() < 0.55
+    mode = rng.random()
+    if mode < 0.2:
+        # user comparator on numeric values / numeric keys: '<=>' is the numeric order there
+        desc = rng.random() < 0.5
+        if by_value:
+            keys = rng.sample(MAPKEYS_STR, min(n, len(MAPKEYS_STR)))
+            vals = [rng.choice(NUMS) for _ in keys]
+            fn, body = ("mvdesc", "bv <=> av") if desc else ("mvasc", "av <=> bv")
+        else:
+            keys = rng.sample(MAPKEYS_STR + [b"1", b"10", b"9"], min(n, 12))      # map keys reach the function as strings
+            vals = [rng.choice(STRS) for _ in keys]
+            fn, body = ("mkdesc", "bk <=> ak") if desc else ("mkasc", "ak <=> bk")
+        prog = "func %s(ak, av, bk, bv) { return %s } $* = sort($*, %s)" % (fn, body, fn)
+        code = (5 if desc else 4) if by_value else (1 if desc else 0)
+    else:
+        fl, code = rng.choice(DSL_FLAGS)
+        nat = code in (10, 11)
+        if by_value:
+            keys = rng.sample(MAPKEYS_STR, min(n, len(MAPKEYS_STR)))
+            pool = [x.lower() for x in NATS] if nat else STRS + NUMS        # sortMNatural lower-cases before natsort
+            vals = [rng.choice(pool) for _ in keys]
+            fl = fl + "v"
+        else:
+            if code in (4, 5):
+                keys = rng.sample(MAPKEYS_NUM, min(n, len(MAPKEYS_NUM)))       # all-numeric keys (mixed: known finding)
+            elif nat:
+                keys = rng.sample([x for x in MAPKEYS_STR if x == x.lower()], min(n, 9))
+            else:
+                keys = rng.sample(MAPKEYS_STR, min(n, len(MAPKEYS_STR)))
+            vals = [rng.choice(STRS + NUMS) for _ in keys]
+        prog = '$* = sort($*, "%s")' % fl
+    rec = list(zip(keys, vals))
+    return [((b"v" if by_value else b"k"), code)], ["put", prog], [rec]
+
+
+def gen_top_case(rng):
+    n = rng.choice([0, 1, 3, 6, 10, 15])
+    k = rng.choice([1, 1, 2, 3, n + 1])
+    domax = rng.random() < 0.6
+    hasg = rng.random() < 0.5
+    fs = rng.choice([[b"a"], [b"a", b"b"]]) if hasg else []
+    pool = rng.sample(NUMS, rng.choice([4, 8, len(NUMS)])) + rng.sample(STRS, rng.choice([0, 0, 2]))
+    recs = []
+    for i in range(n):
+        r = [(b"a", rng.choice([b"pan", b"eks", b"wye"])), (b"b", rng.choice([b"1", b"2"]))]
+        if rng.random() < 0.9:
+            r.append((b"x", rng.choice(pool)))
+        if rng.random() < 0.1:
+            r = r[1:]
+        r.append((b"i", str(i).encode()))
+        recs.append(r)
+    args = ["top", "-n", str(k), "-f", "x", "-a"] + ([] if domax else ["--min"]) + (["-g", b",".join(fs).decode()] if hasg else [])
+    ks = [(b"x", 1 if domax else 0), (str(k).encode(), 0)] + [(f, 0) for f in fs]
+    return ks, args, recs
+
+
+def top_oracle(ks, inp, out):
+    x, domax, k, fs = ks[0][0], ks[0][1], int(ks[1][0]), [f for f, _ in ks[2:]]
+    elig = [r for r in inp if x in dict(r) and all(f in dict(r) for f in fs)]
+    groups = {}
+    for r in elig:
+        groups.setdefault(tuple(dict(r)[f] for f in fs), []).append(r)
+    og = {}
+    for r in out:
+        if r not in elig:
+            return "every output record is an input record having the value and group-by fields"
+        og.setdefault(tuple(dict(r)[f] for f in fs), []).append(r)
+    if [r for g in groups for r in og.get(g, [])] != out:
+        return "groups in first-appearance order"
+    better = (lambda a, b: num_cmp(a, b) > 0) if domax else (lambda a, b: num_cmp(a, b) < 0)
+    for g, G in groups.items():
+        O = og.get(g, [])
+        if len(O) != min(k, len(G)):
+            return "min(k, group size) records per group"
+        rest = list(G)
+        for r in O:
+            if r not in rest:
+                return "no record twice"
+            rest.remove(r)
+        vo = [dict(r)[x] for r in O]
+        if any(better(vo[j], vo[i]) for i in range(len(vo)) for j in range(i + 1, len(vo))):
+            return "best first"
+        if any(better(dict(r)[x], v) for r in rest for v in vo):
+            return "no record left out is strictly better than a chosen one"
+    return None
+
+
+def map_entries(rec):
+    return [[(b"k", k), (b"v", v)] for k, v in rec]
+
+
 def term(kind, ks, inp, out):
     return "(%d, %s,\n  %s,\n  %s)" % (kind, coq_list(["(%s, %d)" % (coq_bytes(k), c) for k, c in ks]), coq_records(inp), coq_records(out))
 
@@ -275,7 +377,7 @@ def run(ctx):
     ctx.assumptions = ["strings.ToLower modelled on ASCII", "sort.Slice is not modelled: its output is checked"]
     c06.gen_tables(ctx)
     forbidden_gate(ctx, ["Base", "C11", "C09"])
-    ok, why = check_props(ctx, "C09/Props.v", ["C09/Harness.vo", "C09/Proofs.vo"])
+    ok, why = check_props(ctx, "C09/Props.v", ["C09/Harness.vo", "C09/Proofs.vo", "C09/FloatMono.vo"])
     rng = ctx.rng
     nsort = int((700 if ctx.tier == "quick" else 20000) * SCALE)
     ngroups = int((60 if ctx.tier == "quick" else 1000) * SCALE)
@@ -296,6 +398,14 @@ def run(ctx):
         ks, args, recs = gen_dsl_case(rng)
         cases.append(("dsl", ks, args, recs))
         ctx.dist("dsl-sort")
+    for _ in range(ndsl):
+        ks, args, recs = gen_map_case(rng)
+        cases.append(("map", ks, args, recs))
+        ctx.dist("dsl-sort-map")
+    for _ in range(ndsl):
+        ks, args, recs = gen_top_case(rng)
+        cases.append(("top", ks, args, recs))
+        ctx.dist("top -a")
     for _ in range(nswr):
         recs = c11.gen_stream(rng, 6)
         cases.append(("swr", [], ["sort-within-records"], recs))
@@ -316,20 +426,31 @@ def run(ctx):
             if out != want:
                 oracle_bad.append(dict(base, law="sort-within-records: fields in ascending key order", expected=c11.show(want), **{"class": "other"}))
             continue
-        terms.append(term(3 if kind == "dsl" else 0, ks, inp, out)); meta.append((kind, ks, args, inp, out))
-        v = oracle(ks, inp, out)
+        if kind == "top":
+            terms.append(term(4, ks, inp, out)); meta.append((kind, ks, args, inp, out))
+            tv = top_oracle(ks, inp, out)
+            if tv:
+                oracle_bad.append(dict(base, law="top -a: " + tv, **{"class": "grouping-key-comma-collision" if c11.has_collision([f for f, _ in ks[2:]], inp) else "other"}))
+            continue
+        if kind == "map":
+            if len(out) != 1:
+                oracle_bad.append(dict(base, law="sort of a map returns one map", **{"class": "other"}))
+                continue
+            inp, out = map_entries(inp[0]), map_entries(out[0])
+        terms.append(term(3 if kind in ("dsl", "map") else 0, ks, inp, out)); meta.append((kind, ks, args, inp, out))
+        v = oracle(ks, inp, out, verb=kind not in ("dsl", "map"))
         if v:
             cls = "other"
             if c11.has_collision([k for k, _ in ks], inp):
                 cls = "grouping-key-comma-collision"
-            elif oracle(ks, inp, out, fold_numbers=False) is None:
+            elif kind not in ("dsl", "map") and oracle(ks, inp, out, fold_numbers=False) is None:
                 cls = "sort-c-does-not-fold-number-like-text"
             oracle_bad.append(dict(base, law=v[0], pair=v[1], **{"class": cls}))
-        if kind in ("sort", "groups"):
-            stable_terms.append(term(1, ks, inp, out)); stable_meta.append((kind, ks, args, inp, out))
+        if kind in ("sort", "groups") and not v:
             sv = stable_oracle(ks, inp, out)
-            if sv and not v:
-                oracle_bad.append(dict(base, law="documentation: the sort is stable (records that compare equal keep their input order)", pair=sv,
+            if sv:
+                # repaired in /repo (4e85fa106, sort.SliceStable): a recurrence is a plain violation
+                oracle_bad.append(dict(base, law="the sort is stable: groups that compare equal keep their first-appearance order", pair=sv,
                                        **{"class": "sort-not-stable-for-equal-comparing-groups"}))
     for i in (0, 5, 700, 800):
         if i < len(meta):
@@ -343,8 +464,8 @@ def run(ctx):
         return
     with ctx.timed("coq_cases"):
         bad, err = coq_eval_mismatches(ctx, "C09", "Base.Record C09.Model C09.Harness", "case", "chk", terms, shard=len(terms) // PAR + 1)
-        sbad, serr = coq_eval_mismatches(ctx, "C09s", "Base.Record C09.Model C09.Harness", "case", "chk", stable_terms, shard=len(stable_terms) // PAR + 1)
-    ctx.cov["correspondence"] = {"cases": len(terms), "rejected_by_verified_checker": len(bad), "stability_cases": len(stable_terms), "stability_rejected": len(sbad),
+        sbad, serr = [], ""
+    ctx.cov["correspondence"] = {"cases": len(terms), "rejected_by_verified_checker": len(bad), 
                                  "rejected_examples": [{"argv": meta[i][2], "input": c11.show(meta[i][3]), "observed": c11.show(meta[i][4])} for i in bad[:4] if i >= 0]}
     if err or serr:
         ctx.violation({"broken": "correspondence-evaluation", "detail": (err + serr)[-2000:]}, found_input=False)
@@ -353,18 +474,13 @@ def run(ctx):
     for i in bad[:60]:
         kind, ks, args, inp, out = meta[i]
         base = {"argv": ["mlr"] + c11.IOFLAGS + args, "input": c11.show(inp), "observed": c11.show(out)}
-        v = oracle(ks, inp, out) if kind != "swr" else None
+        v = (top_oracle(ks, inp, out) if kind == "top" else (oracle(ks, inp, out, verb=kind not in ("dsl", "map")) or (kind in ("sort", "groups") and stable_oracle(ks, inp, out)))) if kind != "swr" else None
         if v:
             continue        # reported below with its class
         reported += 1 if ctx.violation(dict(base, broken="C09.Harness.chk: the verified checker rejects mlr's output (python oracle accepts it)"), found_input=False) else 0
         if reported >= 3:
             break
-    for i in sbad[:60]:
-        kind, ks, args, inp, out = stable_meta[i]
-        if stable_oracle(ks, inp, out) or oracle(ks, inp, out):
-            continue
-        ctx.violation({"broken": "C09.Harness check_stable rejects mlr's output (python oracle accepts it)", "argv": args, "input": c11.show(inp), "observed": c11.show(out)}, found_input=False)
-        break
+    oracle_bad.sort(key=lambda v: len(v.get("input", [])))       # smallest witness of each class first
     seen = {}
     for v in oracle_bad:
         key = (v.get("class"), v.get("law") if v.get("class") == "other" else "")
@@ -405,7 +521,7 @@ def fixed_probes(ctx, oracle_bad):
             oracle_bad.append({"argv": ["mlr"] + c11.IOFLAGS + args, "input": lines, "observed": c11.show(out), "expected": want, "law": law, "class": cls})
     probe(["sort", "-nf", "x"], ["x:0x1;i:0", "x:10;i:1", "x:3;i:2", "x:1.0;i:3", "x:1e0;i:4", "x:12;i:5", "x:5;i:6", "x:11;i:7", "x:1;i:8", "x:8;i:9", "x:4;i:10", "x:2.0;i:11", "x:2;i:12"],
           ["x:0x1;i:0", "x:1.0;i:3", "x:1e0;i:4", "x:1;i:8", "x:2.0;i:11", "x:2;i:12", "x:3;i:2", "x:4;i:10", "x:5;i:6", "x:8;i:9", "x:10;i:1", "x:11;i:7", "x:12;i:5"],
-          "documentation: the sort is stable (records that compare equal keep their input order)", "sort-not-stable-for-equal-comparing-groups")
+          "the sort is stable: groups that compare equal keep their first-appearance order", "sort-not-stable-for-equal-comparing-groups")
     probe(["sort", "-c", "y"], ["y:1E2", "y:1e0"], ["y:1e0", "y:1E2"], "ordered by the keys in precedence order (case-folded)", "sort-c-does-not-fold-number-like-text")
     probe(["sort", "-f", "a", "-f", "b"], ["a:x,y;b:z;i:0", "a:x;b:zz;i:1", "a:x;b:y,z;i:2"], ["a:x;b:y,z;i:2", "a:x;b:zz;i:1", "a:x,y;b:z;i:0"],
           "ordered by the keys in precedence order", "grouping-key-comma-collision")
